@@ -188,8 +188,12 @@ pub fn gen_desc_case_with(rng: &mut Rng, world: &World, cfg: &CaseCfg, names: &d
             gc.chaos_pct = cfg.chaos_pct;
             gc.repeat_keys = cfg.repeat_keys;
             let budget = 1 + rng.below(cfg.max_nodes);
-            let mut g = Gen::new(rng, gc);
-            let f = g.gen(Base::B, budget);
+            let f = if rng.chance(1, 6) {
+                crate::frag::ladder(rng, cx)
+            } else {
+                let mut g = Gen::new(rng, gc);
+                g.gen(Base::B, budget)
+            };
             let ms = f.to_string_with(names);
             let desc = match kind {
                 DescKind::Sh => format!("sh({})", ms),
@@ -210,7 +214,11 @@ pub fn gen_desc_case_with(rng: &mut Rng, world: &World, cfg: &CaseCfg, names: &d
                 let mut g = Gen::new(rng, gc);
                 for _ in 0..n_leaves {
                     let b = (budget_total / n_leaves.max(1)).max(1);
-                    frags.push(g.gen(Base::B, b));
+                    if g.rng.chance(1, 8) {
+                        frags.push(crate::frag::ladder(g.rng, Cx::Tap));
+                    } else {
+                        frags.push(g.gen(Base::B, b));
+                    }
                 }
             }
             let desc = if n_leaves == 0 {
